@@ -3,6 +3,7 @@ package main
 // Function translation: SSA CFG -> reachability-predicate VC (DESIGN A.1, A.2).
 
 import (
+	"os"
 	"time"
 	"fmt"
 	"math/big"
@@ -40,6 +41,7 @@ type excEdge struct {
 }
 
 type RetEdge struct {
+	Pos     string
 	St      State
 	Results []Val
 	Exc     bool
@@ -103,10 +105,12 @@ type FnTr struct {
 	excEdges []excEdge   // refute mode: precise exceptional edges
 	privAllocObj  map[*ssa.Alloc]*Term // private locals of the top-level function: object ids
 	privAllocList []*ssa.Alloc
+	owners        map[string][]objOwner // object id key -> every allocation site that may own it
 	excSlots      []excSlot // proof mode: content of the result slots at every covered panic point
 	stateRecs map[string]*SpecFunc
 	globalSeen map[*ssa.Global]bool
 	globalList []*ssa.Global // package variables this function mentions, in order of first mention
+	panicsIfT *Term        // entry-state disjunction of the function's own panicsif clauses
 	excLocks  []excLock    // proof mode: lock state at every panic point caught by a recovering defer
 	recDefers []*ssa.Defer // the defer statements of the function whose closure calls recover()
 	inlining map[*ssa.Function]bool
@@ -597,7 +601,7 @@ func (tr *FnTr) procInstrs(b *ssa.BasicBlock, from int) {
 			for _, r := range x.Results {
 				rs = append(rs, tr.val(r))
 			}
-			tr.rets = append(tr.rets, RetEdge{St: tr.st, Results: rs})
+			tr.rets = append(tr.rets, RetEdge{St: tr.st, Results: rs, Pos: tr.pos(x.Pos())})
 		case *ssa.Panic:
 			tr.panicEdge("explicit", tFalse, x.Pos())
 		default:
@@ -754,6 +758,20 @@ func loopWritesAlloc(l *Loop, a *ssa.Alloc) bool {
 	return false
 }
 
+// loopKeepsObj: every allocation site that may own the id is a private local of the top-level
+// function, allocated outside the loop, that nothing in the loop writes to.
+func (top *FnTr) loopKeepsObj(l *Loop, obj *Term) bool {
+	if !top.idAllPrivate(obj) {
+		return false
+	}
+	for _, o := range top.owners[obj.Key()] {
+		if o.depth != 0 || o.a == nil || l.Body[o.a.Block()] || loopWritesAlloc(l, o.a) {
+			return false
+		}
+	}
+	return true
+}
+
 // excSlot: what the result slots hold at one panic point covered by the recovering defer.
 type excSlot struct {
 	Reach *Term
@@ -821,7 +839,11 @@ func (tr *FnTr) panicEdge(kind string, ok *Term, p token.Pos) {
 		// control transfers to the deferred recover: the exceptional exit is checked
 		// separately against a havocked state. Nothing to prove here.
 	} else {
-		tr.vc.Oblige(tr.prefix+"nopanic."+kind, "", Implies(tr.st.Reach, ok), tr.pos(p))
+		g := ok
+		if top.panicsIfT != nil {
+			g = Or(ok, top.panicsIfT) // a panic the contract announces
+		}
+		tr.vc.Oblige(tr.prefix+"nopanic."+kind, "", Implies(tr.st.Reach, g), tr.pos(p))
 	}
 	tr.st.Reach = tr.vc.Def("reach", And(tr.st.Reach, ok))
 }
@@ -908,7 +930,10 @@ func (tr *FnTr) procLoop(l *Loop) {
 			// private locals (address never leaves the function) that nothing in the loop
 			// writes to keep their content
 			for _, a := range tr.top.privAllocList {
-				if obj := tr.top.privAllocObj[a]; obj != nil && !l.Body[a.Block()] && !loopWritesAlloc(l, a) {
+				if obj := tr.top.privAllocObj[a]; obj != nil && tr.top.loopKeepsObj(l, obj) {
+					if os.Getenv("GOCV_DEBUG_PRIV") != "" {
+						fmt.Fprintf(os.Stderr, "PRIV loop %s keeps %s (%s) obj=%s block=%d\n", lname, a.Name(), a.Comment, obj.String(), a.Block().Index)
+					}
 					hst.Mem = Store(hst.Mem, obj, Select(est.Mem, obj))
 				}
 			}
